@@ -265,6 +265,9 @@ def write_evidence(prop, tier, seed, coverage, assumptions, wall, violations, le
     return ev
 
 
+PLANNER_DEP_PROPS = {"C02", "C03", "C04", "C05", "C09", "C13"}
+
+
 class Check:
     """Bookkeeping for one property check run."""
 
@@ -290,6 +293,15 @@ class Check:
             self.cov["known_findings_confirmed"].append(fid)
 
     def finish(self):
+        # properties whose statement quantifies over what the PLANNER emits (action order, evolving schema) also rest on
+        # the planner model's correspondence (K-diff, K-apply of layer m1); the M1 run is shared and cached per tree
+        if self.prop in PLANNER_DEP_PROPS and not getattr(self, "_planner_dep_done", False):
+            self._planner_dep_done = True
+            try:
+                import m1run
+                m1run.planner_dependency(self)
+            except Exception as e:  # the dependency must never hide the layer's own verdict
+                self.notes.append("NOTE planner dependency not evaluated: %s" % e)
         wall = time.time() - self.t0
         for l in self.notes:
             print(l)
